@@ -4,7 +4,8 @@
    Vocabulary (Model/Decompose.v, Proofs/DecomposeP.v):
      decompose env c nc ids maps : res (circ * nat)    the model of decompose_qpd_instructions (running offsets kept)
      valid_grouping c ids   = accepted by the validation /\ no index twice /\ a 2q placeholder is a group of its own
-     valid env c ids ms     = valid_grouping /\ |ms| = |ids| /\ every map id in range for every member of its group
+     valid env c ids ms     = valid_grouping /\ |ms| = |ids| /\ every map id (a Python int: Z) in range 0 <= m < #maps for
+                              every member of its group
      assign c ids (Some ms) = c with basis_id := the map id of the group containing the index (pointwise: c14_assign)
      splice env i           = the chosen map's sequence for that half on that qubit (2q: half 0 on qubit 0 ++ half 1 on
                               qubit 1) for a placeholder i, [i] for anything else
@@ -24,7 +25,7 @@ Proof. exact decompose_splice. Qed.
 Theorem c14_assign : forall env c ids ms,
   valid env c ids ms ->
   (forall g m p x, In (g, m) (combine ids ms) -> In p g -> nth_error c p = Some x ->
-     nth_error (assign c ids (Some ms)) p = Some (set_bid m x)) /\
+     nth_error (assign c ids (Some ms)) p = Some (set_bid (Z.to_nat m) x)) /\
   (forall p x, nth_error c p = Some x -> is_qpd x = false -> nth_error (assign c ids (Some ms)) p = Some x) /\
   Forall (fun x => goodb env x = true) (assign c ids (Some ms)).
 Proof.
@@ -123,7 +124,7 @@ Definition exC : circ :=
     mkI (Gate 5) [0; 1] []; mkI (Qpd1 1 0 (Some 2) None) [2] []; mkI QpdMeasure [1] [];
     mkI (Qpd1 0 0 None exL) [0] []; mkI Measure [2] [0] ].
 Definition exIds := [[4]; [6; 1]; [2]].
-Definition exMs := [0; 3; 1].
+Definition exMs : list Z := [0; 3; 1]%Z.
 
 Example c14_ex_valid : valid exEnv exC exIds exMs.
 Proof. apply validb_sound. vm_compute. reflexivity. Qed.
@@ -146,8 +147,8 @@ Proof. vm_compute. reflexivity. Qed.
 
 (* zero markers: the register still has one bit *)
 Example c14_ex_min_register :
-  valid exEnv [mkI (Qpd2 0 None None) [0; 1] []] [[0]] [2] /\
-  decompose exEnv [mkI (Qpd2 0 None None) [0; 1] []] 0 [[0]] (Some [2]) = Ok ([], 1).
+  valid exEnv [mkI (Qpd2 0 None None) [0; 1] []] [[0]] [2%Z] /\
+  decompose exEnv [mkI (Qpd2 0 None None) [0; 1] []] 0 [[0]] (Some [2%Z]) = Ok ([], 1).
 Proof. split; [apply validb_sound|]; vm_compute; reflexivity. Qed.
 
 (* omitted map choice: refused while some basis_id is unset, decomposed once all are set *)
@@ -163,13 +164,14 @@ Proof. split; [apply groupingb_sound|split; [|split]]; vm_compute; reflexivity. 
 
 (* the refusal classes are inhabited *)
 Example c14_ex_refusals :
-  decompose exEnv exC 1 [[4; 6; 1]; [2]] (Some [0; 1]) = Refused /\          (* three elements *)
-  decompose exEnv exC 1 [[4]; [6; 1]; [2]; []] (Some [0; 3; 1; 0]) = Refused /\ (* empty group *)
+  decompose exEnv exC 1 [[4; 6; 1]; [2]] (Some [0; 1]%Z) = Refused /\        (* three elements *)
+  decompose exEnv exC 1 [[4]; [6; 1]; [2]; []] (Some [0; 3; 1; 0]%Z) = Refused /\ (* empty group *)
   decompose exEnv exC 1 [[4]; [6; 3]; [2]] (Some exMs) = Refused /\           (* index 3 is an ordinary gate *)
   decompose exEnv exC 1 [[4; 6]; [1]; [2]] (Some exMs) = Refused /\           (* bases 1 and 0 in one group *)
-  decompose exEnv exC 1 [[4]; [6; 1]] (Some [0; 3]) = Refused /\              (* 3 of 4 placeholders mentioned *)
-  decompose exEnv exC 1 exIds (Some [0; 3]) = Refused /\                      (* two map ids for three groups *)
-  decompose exEnv exC 1 exIds (Some [3; 3; 1]) = Refused /\                   (* basis 1 has three maps *)
+  decompose exEnv exC 1 [[4]; [6; 1]] (Some [0; 3]%Z) = Refused /\           (* 3 of 4 placeholders mentioned *)
+  decompose exEnv exC 1 exIds (Some [0; 3]%Z) = Refused /\                   (* two map ids for three groups *)
+  decompose exEnv exC 1 exIds (Some [3; 3; 1]%Z) = Refused /\                (* basis 1 has three maps *)
+  decompose exEnv exC 1 exIds (Some [0; -1; 1]%Z) = Refused /\               (* a negative map id is out of range *)
   decompose exEnv exC 1 [[4]; [6; 1]; [9]] (Some exMs) = Crashed.             (* index outside the circuit: IndexError *)
 Proof. vm_compute. repeat split; reflexivity. Qed.
 
